@@ -179,6 +179,9 @@ def run(ck):
             ('fn-tsan-2x1', S.build_thr('c09-schedfn-tsan', san='tsan', fn=True), 'tsan', True, CFG_LOG, 2, 1, 1, False),
             ('fn-asan-2x1-b2', vf, 'asan', True, CFG_DROP, 2, 1, 2, True),
             ('hashed-asan-3x1', va, 'asan', False, CFG_LOG, 3, 1, 'hashed', False),
+            # all interleavings at FUNCTION-ENTRY granularity (state = thread positions counted in function entries + sync points)
+            ('fn-hashed-asan-drop-2x1', vf, 'asan', True, CFG_DROP, 2, 1, 'hashed', True),
+            ('fn-hashed-asan-2x1', vf, 'asan', True, CFG_LOG, 2, 1, 'hashed', False),
             ('hashed-tsan-2x2', vt, 'tsan', False, CFG_LOG, 2, 2, 'hashed', False),
             ('hashed-asan-2x3', va, 'asan', False, CFG_LOG, 2, 3, 'hashed', False),
         ]
